@@ -56,6 +56,10 @@ def check(ctx):
     ctx.rule("C17-H", "white space is what CSS Syntax says it is: the tokenizer's white-space primitive accepts exactly space, tab, "
              "line feed, carriage return and form feed (the set literal of match_whitespace_item, decoded) — or a comment")
     ctx.guard("C17-H", rule_h)
+    ctx.rule("C17-I", "identifiers are case-folded where they are read: every character the identifier primitives (nmstart_char, "
+             "nmchar_char) hand on is the result of to_ascii_lowercase — all keyword, property, unit and element-name comparisons "
+             "downstream are against lower-case literals")
+    ctx.guard("C17-I", rule_i)
 
 
 RAW_SCANNERS = ("take_until", "take_until1", "take_till", "take_till1", "take_while", "take_while1", "take_while_m_n", "is_not", "is_a",
@@ -275,3 +279,28 @@ def rule_token_progress(ctx):
     # parse_token is the only source of the loop's new remainder
     sk = F.one("css::parser::skip_to_end_of_statement")
     ctx.check(bool(sk.calls(lambda cd, t: cd == b.id)), "C17-C", "skip_to_end_of_statement:uses-parse_token", sk.span, sk.id, "")
+
+
+def rule_i(ctx):
+    F = ctx.facts
+    n = 0
+    for fn in ("css::parser::nmstart_char", "css::parser::nmchar_char"):
+        b = F.one(fn)
+        for x in sorted(b.reachable()):
+            for st in b.stmts(x):
+                rv = st.get("rv") or {}
+                if rv.get("agg") != "tuple" or len(rv.get("ops", ())) != 2:
+                    continue
+                ty = b.local_ty(st["lhs"]["l"]) if not st["lhs"]["p"] else ""
+                if not ty.replace(" ", "").endswith(",char)"):
+                    continue
+                n += 1
+                o = origin(b, rv["ops"][1])
+                folded = bool(o and o[0] == "call" and callee_method(o[1]) in ("to_ascii_lowercase", "to_lowercase"))
+                if o and o[0] == "const":
+                    v = str((o[1] or {}).get("v", ""))
+                    folded = not any(ch.isupper() for ch in v)
+                ctx.check(folded, "C17-I", "%s:hands-on-folded-char" % fn.split("::")[-1], st["span"], b.id,
+                          "an identifier character is handed on as read: `COLOR`, `Red`, `!IMPORTANT` or `DIV` would no longer be "
+                          "recognised (the comparisons downstream are against lower-case literals)")
+    ctx.floor("C17-I", "characters handed on by the identifier primitives", n, 2)
